@@ -187,12 +187,22 @@ theorem urlDecodeSpec_ne (c : UInt8) (t : Bytes) (h : (c == 37) = false) :
   | nil => simp [urlDecodeSpec, h]
   | cons a t' => cases t' <;> simp [urlDecodeSpec, h]
 
+theorem atA?_eq (s : Bytes) (i : Nat) : atA? s.toArray i = at? s i := by
+  unfold atA? at?
+  simp only [List.size_toArray]
+  by_cases h : i < s.length
+  · simp only [h, if_true]
+    congr 1
+    simp [Array.getD, List.getD, h]
+  · simp only [h, if_false]
+
 theorem decodeStep_ok (q0 : Bytes) (x : DecSt)
     (hx : x.acc.reverse ++ urlDecodeSpec (q0.drop x.i) = urlDecodeSpec q0) :
-    (∃ r, decodeStep q0 x = .ok (.done r) ∧ r = urlDecodeSpec q0) ∨
-    (∃ y, decodeStep q0 x = .ok (.next y) ∧ (y.acc.reverse ++ urlDecodeSpec (q0.drop y.i) = urlDecodeSpec q0) ∧
+    (∃ r, decodeStep q0.toArray x = .ok (.done r) ∧ r = urlDecodeSpec q0) ∨
+    (∃ y, decodeStep q0.toArray x = .ok (.next y) ∧ (y.acc.reverse ++ urlDecodeSpec (q0.drop y.i) = urlDecodeSpec q0) ∧
       q0.length - y.i < q0.length - x.i) := by
   unfold decodeStep
+  simp only [atA?_eq, List.size_toArray]
   by_cases hi : x.i < q0.length
   · simp only [hi, if_true]
     rw [at?_lt _ _ hi]
@@ -250,7 +260,7 @@ theorem decodeStep_ok (q0 : Bytes) (x : DecSt)
     simpa [urlDecodeSpec] using hx
 
 theorem urlDecode_eq_spec (q0 : Bytes) : urlDecode q0 = .ok (urlDecodeSpec q0) := by
-  obtain ⟨r, hr, hp⟩ := iterate_ok (decodeStep q0) (fun x => q0.length - x.i)
+  obtain ⟨r, hr, hp⟩ := iterate_ok (decodeStep q0.toArray) (fun x => q0.length - x.i)
     (fun x => x.acc.reverse ++ urlDecodeSpec (q0.drop x.i) = urlDecodeSpec q0) (fun r => r = urlDecodeSpec q0)
     (fun x hx => decodeStep_ok q0 x hx) (q0.length + 1) ⟨0, []⟩ (by simp) (by simp)
   unfold urlDecode
@@ -1105,5 +1115,498 @@ theorem dicFind_dicSet_same (d : Dic) (k v : Bytes) : dicFind (dicSet d k v) k =
     | lt => simp only [dicFind, hc, ih]
     | eq => simp only [dicFind, hc]
     | gt => simp only [dicFind, cmpBytes_refl]
+
+
+/-! ## `Url::parseQuery` -/
+
+theorem queryPairs_ok (ps : List Bytes) (d : Dic) : ∃ r, queryPairs ps d = .ok r := by
+  induction ps generalizing d with
+  | nil => exact ⟨_, rfl⟩
+  | cons p t ih =>
+    unfold queryPairs
+    cases hf : findByte 61 p with
+    | none => exact ih d
+    | some j =>
+      have hj := (findByte_some hf).1
+      simp only []
+      by_cases hpos : j > 0
+      · simp only [hpos, if_true]
+        rw [substring?_ok _ _ _ (Nat.zero_le _) (by omega)]
+        simp only [bind, Except.bind]
+        rw [substring?_ok _ _ _ (by omega) (Nat.le_refl _)]
+        exact ih _
+      · simp only [hpos, if_false]
+        exact ih d
+
+theorem queryDecode_ok (raw d : Dic) : ∃ r, queryDecode raw d = .ok r := by
+  induction raw generalizing d with
+  | nil => exact ⟨_, rfl⟩
+  | cons kv t ih =>
+    unfold queryDecode
+    rw [urlDecode_eq_spec, urlDecode_eq_spec]
+    exact ih _
+
+theorem parseQuery_ok (qs : Bytes) : ∃ d, parseQuery qs = .ok d := by
+  unfold parseQuery
+  obtain ⟨raw, hraw⟩ := queryPairs_ok (splitByte 38 (cstr (qs.map fun c => if c == 43 then 32 else c))) []
+  simp only [bind, Except.bind]
+  rw [hraw]
+  exact queryDecode_ok raw []
+
+/-! ## faithful reading of well-formed input -/
+
+theorem readLineLoop_line (line rest : Bytes) (h10 : ∀ c ∈ line, c ≠ 10) :
+    ∀ (acc : Bytes) (n : Nat), n + line.length ≤ 16001 →
+      readLineLoop (line ++ 10 :: rest) acc n = (acc.reverse ++ line, rest, 0) := by
+  induction line with
+  | nil => intro acc n _; simp [readLineLoop]
+  | cons c t ih =>
+    intro acc n hlen
+    have hc : (c == 10) = false := by simpa using h10 c (by simp)
+    have hn : ¬ n > 16000 := by simp at hlen; omega
+    simp only [List.cons_append, readLineLoop, hc, Bool.false_eq_true, if_false, hn]
+    rw [ih (fun x hx => h10 x (by simp [hx])) (c :: acc) (n + 1) (by simp at hlen ⊢; omega)]
+    simp
+
+/-- a healthy socket holding `line LF rest` yields exactly `line` and keeps `rest` -/
+theorem readLine_line (s : Sock) (line rest : Bytes) (he : s.err = 0) (hc : s.closed = false)
+    (hi : s.inp = line ++ 10 :: rest) (h10 : ∀ c ∈ line, c ≠ 10) (hlen : line.length ≤ 16001) :
+    s.readLine = (line, { s with inp := rest }) := by
+  unfold Sock.readLine Sock.available Sock.readLineBody
+  have hpos : ((s.inp.length : Int) > 0) := by rw [hi]; simp; omega
+  simp only [he, hc, bne_self_eq_false, Bool.or_self, Bool.false_eq_true, if_false, hpos, if_true]
+  rw [hi, readLineLoop_line line rest h10 [] 0 (by omega)]
+  simp
+
+theorem cstr_append_of_no_nul (a b : Bytes) (h : ∀ c ∈ a, c ≠ 0) : cstr (a ++ b) = a ++ cstr b := by
+  unfold cstr
+  induction a with
+  | nil => rfl
+  | cons x t ih =>
+    have hx : (x != 0) = true := by simpa using h x (by simp)
+    rw [List.cons_append, tw_pos (p := fun x => x != 0) hx, ih (fun c hc => h c (by simp [hc]))]
+    rfl
+
+theorem findByte_append (c : UInt8) (a b : Bytes) (h : ∀ x ∈ a, x ≠ c) : findByte c (a ++ c :: b) = some a.length := by
+  induction a with
+  | nil => simp [findByte]
+  | cons x t ih =>
+    have hx : (x == c) = false := by simpa using h x (by simp)
+    simp only [List.cons_append, findByte, hx, Bool.false_eq_true, if_false, ih (fun y hy => h y (by simp [hy]))]
+    simp
+
+/-- the request line `method SP target SP protocol` is split into exactly these three -/
+theorem parseRequestLine_faithful (m t p : Bytes) (hm : ∀ c ∈ m, c ≠ 32 ∧ c ≠ 0) (ht : ∀ c ∈ t, c ≠ 32 ∧ c ≠ 0) :
+    parseRequestLine (m ++ 32 :: (t ++ 32 :: p)) = .ok (some ⟨m, t, trimmed p⟩) := by
+  unfold parseRequestLine indexOfByteFrom?
+  have h1 : cstr (m ++ 32 :: (t ++ 32 :: p)) = m ++ 32 :: (t ++ 32 :: cstr p) := by
+    rw [cstr_append_of_no_nul _ _ (fun c hc => (hm c hc).2)]
+    show m ++ cstr ([32] ++ (t ++ 32 :: p)) = _
+    rw [cstr_append_of_no_nul [32] _ (by decide)]
+    rw [cstr_append_of_no_nul _ _ (fun c hc => (ht c hc).2)]
+    show m ++ ([32] ++ (t ++ cstr ([32] ++ p))) = _
+    rw [cstr_append_of_no_nul [32] _ (by decide)]
+    rfl
+  simp only [Nat.zero_le, if_true, List.drop_zero, h1, pure, Except.pure, bind, Except.bind]
+  rw [findByte_append 32 m _ (fun c hc => (hm c hc).1)]
+  simp only [Option.map_some, Nat.add_zero]
+  have hlen : m.length + 1 ≤ (m ++ 32 :: (t ++ 32 :: p)).length := by simp
+  simp only [hlen, if_true]
+  have hd : (m ++ 32 :: (t ++ 32 :: p)).drop (m.length + 1) = t ++ 32 :: p := by
+    rw [show m ++ 32 :: (t ++ 32 :: p) = (m ++ [32]) ++ (t ++ 32 :: p) by simp]
+    rw [List.drop_left' (by simp)]
+  rw [hd]
+  have h2 : cstr (t ++ 32 :: p) = t ++ 32 :: cstr p := by
+    rw [cstr_append_of_no_nul _ _ (fun c hc => (ht c hc).2)]
+    show t ++ cstr ([32] ++ p) = _
+    rw [cstr_append_of_no_nul [32] _ (by decide)]
+    rfl
+  rw [h2, findByte_append 32 t _ (fun c hc => (ht c hc).1)]
+  simp only [Option.map_some]
+  rw [substring?_ok _ _ _ (Nat.zero_le _) (by simp)]
+  simp only []
+  rw [substring?_ok _ _ _ (by omega) (by simp; omega)]
+  simp only []
+  rw [substring?_ok _ _ _ (by simp; omega) (Nat.le_refl _)]
+  simp only [List.drop_zero, Nat.sub_zero, List.take_left']
+  have e1 : ((m ++ 32 :: (t ++ 32 :: p)).drop (m.length + 1)).take (t.length + (m.length + 1) - (m.length + 1)) = t := by
+    rw [hd]; simp
+  have e2 : (m ++ 32 :: (t ++ 32 :: p)).drop (t.length + (m.length + 1) + 1) = p := by
+    rw [show m ++ 32 :: (t ++ 32 :: p) = (m ++ [32] ++ t ++ [32]) ++ p by simp]
+    rw [List.drop_left' (by simp; omega)]
+  rw [e1, e2]
+  simp only [List.length_append, List.length_cons]
+  rw [List.take_of_length_le (by omega)]
+
+/-! ### header lines -/
+
+theorem dropWhile_append_all (p : UInt8 → Bool) (pre rest : Bytes) (h : ∀ c ∈ pre, p c = true) :
+    (pre ++ rest).dropWhile p = rest.dropWhile p := by
+  induction pre with
+  | nil => rfl
+  | cons x t ih =>
+    have hx : p x = true := h x (by simp)
+    simp only [List.cons_append, List.dropWhile_cons, hx, if_true]
+    exact ih (fun c hc => h c (by simp [hc]))
+
+theorem dropWhile_head_false (p : UInt8 → Bool) (x : UInt8) (t : Bytes) (h : p x = false) :
+    (x :: t).dropWhile p = x :: t := by
+  simp [List.dropWhile_cons, h]
+
+theorem headD_append_ne (l1 l2 : Bytes) (d : UInt8) (h : l1 ≠ []) : (l1 ++ l2).headD d = l1.headD d := by
+  obtain ⟨x, t, rfl⟩ := List.exists_cons_of_ne_nil h
+  rfl
+
+/-- trimming removes exactly the blanks around a core that starts and ends with a non-blank -/
+theorem trimmed_core (pre a post : Bytes) (hpre : ∀ c ∈ pre, isSp c = true) (hpost : ∀ c ∈ post, isSp c = true)
+    (hne : a ≠ []) (hh : isSp (a.headD 0) = false) (hl : isSp (a.reverse.headD 0) = false) :
+    trimmed (pre ++ a ++ post) = a := by
+  unfold trimmed
+  rw [List.append_assoc, dropWhile_append_all _ _ _ hpre]
+  obtain ⟨x, t, rfl⟩ := List.exists_cons_of_ne_nil hne
+  rw [List.cons_append, dropWhile_head_false _ _ _ (by simpa using hh)]
+  rw [← List.cons_append, List.reverse_append, dropWhile_append_all _ _ _ (fun c hc => hpost c (List.mem_reverse.mp hc))]
+  have hr : (x :: t).reverse ≠ [] := by simp
+  obtain ⟨y, u, hyu⟩ := List.exists_cons_of_ne_nil hr
+  rw [hyu] at hl ⊢
+  rw [dropWhile_head_false _ _ _ (by simpa using hl), ← hyu, List.reverse_reverse]
+
+/-- a header name as the reader needs it: non-empty, no `:`/NUL/LF, not starting with white space -/
+def NameOk (n : Bytes) : Prop :=
+  n ≠ [] ∧ (∀ c ∈ n, c ≠ 58 ∧ c ≠ 0 ∧ c ≠ 10) ∧ cIsSpace (n.headD 0) = false
+/-- a header value: non-empty, no LF, no blanks at either end -/
+def ValueOk (v : Bytes) : Prop :=
+  v ≠ [] ∧ (∀ c ∈ v, c ≠ 10) ∧ isSp (v.headD 0) = false ∧ isSp (v.reverse.headD 0) = false
+
+theorem isSp_of_not_cIsSpace (c : UInt8) (h : cIsSpace c = false) : isSp c = false := by
+  revert h
+  revert c
+  apply byte_cases
+  decide +kernel
+
+/-- one well-formed header line `name: value CRLF` is taken off the stream and stored under `name` -/
+theorem headersStep_line (x : HSt) (name value rest : Bytes) (he : x.s.err = 0) (hc : x.s.closed = false)
+    (hi : x.s.inp = name ++ 58 :: 32 :: (value ++ 13 :: 10 :: rest)) (hn : NameOk name) (hv : ValueOk value)
+    (hlen : name.length + value.length + 3 ≤ 16001) :
+    headersStep x = .ok (.next ⟨{ x.s with inp := rest }, setHeader x.h name value, name, value⟩) := by
+  obtain ⟨hn0, hn1, hn2⟩ := hn
+  obtain ⟨hv0, hv1, hv2, hv3⟩ := hv
+  obtain ⟨a, t, rfl⟩ := List.exists_cons_of_ne_nil hn0
+  have hline : x.s.readLine = ((a :: t) ++ 58 :: 32 :: (value ++ [13]), { x.s with inp := rest }) := by
+    apply readLine_line x.s _ rest he hc
+    · rw [hi]; simp
+    · intro c hcm
+      simp only [List.cons_append, List.mem_cons, List.mem_append, List.not_mem_nil, or_false] at hcm
+      rcases hcm with rfl | h | rfl | rfl | h | rfl
+      · exact (hn1 _ (by simp)).2.2
+      · exact (hn1 c (by simp [h])).2.2
+      · decide
+      · decide
+      · exact hv1 c h
+      · decide
+    · simp only [List.length_cons, List.length_append, List.length_nil] at hlen ⊢; omega
+  unfold headersStep
+  simp only [hline]
+  have hcs : cstr ((a :: t) ++ 58 :: 32 :: (value ++ [13])) = (a :: t) ++ cstr (58 :: 32 :: (value ++ [13])) :=
+    cstr_append_of_no_nul _ _ (fun c hc => (hn1 c hc).2.1)
+  have ha13 : a ≠ 13 := by
+    intro h; rw [h] at hn2; simp [cIsSpace] at hn2
+  have h13 : (cstr ((a :: t) ++ 58 :: 32 :: (value ++ [13])) == [13]) = false := by
+    rw [hcs]
+    simp [ha13]
+  simp only [h13, Bool.false_eq_true, if_false]
+  rw [at?_zero]
+  simp only [bind, Except.bind, List.cons_append, List.getD_cons_zero]
+  have hsp : cIsSpace a = false := by simpa using hn2
+  simp only [hsp, Bool.false_eq_true, if_false]
+  -- the trimmed line
+  have hcore : trimmed (a :: (t ++ 58 :: 32 :: (value ++ [13]))) = a :: (t ++ 58 :: 32 :: value) := by
+    have := trimmed_core [] ((a :: t) ++ 58 :: 32 :: value) [13] (by simp) (by decide) (by simp)
+      (by simpa using isSp_of_not_cIsSpace a hsp)
+      (by
+        have : ((a :: t) ++ 58 :: 32 :: value).reverse = value.reverse ++ (32 :: 58 :: (a :: t).reverse) := by
+          simp
+        rw [this, headD_append_ne _ _ _ (by simpa using hv0)]; exact hv3)
+    simpa using this
+  rw [hcore]
+  have hcs2 : cstr (a :: (t ++ 58 :: 32 :: value)) = (a :: t) ++ 58 :: cstr (32 :: value) := by
+    have := cstr_append_of_no_nul (a :: t) (58 :: 32 :: value) (fun c hc => (hn1 c hc).2.1)
+    rw [List.cons_append] at this
+    rw [this]
+    show _ ++ cstr ([58] ++ 32 :: value) = _
+    rw [cstr_append_of_no_nul [58] _ (by decide)]
+    rfl
+  rw [hcs2, findByte_append 58 (a :: t) _ (fun c hc => (hn1 c hc).1)]
+  simp only []
+  rw [substring?_ok _ _ _ (Nat.zero_le _) (by simp)]
+  simp only []
+  rw [substring?_ok _ _ _ (by simp only [List.length_cons, List.length_append]; omega) (Nat.le_refl _)]
+  simp only [List.drop_zero, Nat.sub_zero]
+  have e1 : (a :: (t ++ 58 :: 32 :: value)).take (a :: t).length = a :: t := by
+    rw [← List.cons_append]; simp
+  have e2 : (a :: (t ++ 58 :: 32 :: value)).drop ((a :: t).length + 1) = 32 :: value := by
+    rw [show a :: (t ++ 58 :: 32 :: value) = ((a :: t) ++ [58]) ++ 32 :: value by simp]
+    rw [List.drop_left' (by simp)]
+  rw [e1, e2]
+  have e3 : ((32 :: value).take ((a :: (t ++ 58 :: 32 :: value)).length - ((a :: t).length + 1))) = 32 :: value := by
+    apply List.take_of_length_le
+    simp only [List.length_cons, List.length_append]; omega
+  rw [e3]
+  have e4 : trimmed (32 :: value) = value := by
+    have := trimmed_core [32] value [] (by decide) (by simp) hv0 hv2 hv3
+    simpa using this
+  rw [e4]
+  rfl
+
+/-- the empty line that ends the header block -/
+theorem headersStep_end (x : HSt) (rest : Bytes) (he : x.s.err = 0) (hc : x.s.closed = false)
+    (hi : x.s.inp = 13 :: 10 :: rest) : headersStep x = .ok (.done ({ x.s with inp := rest }, x.h)) := by
+  have hline : x.s.readLine = ([13], { x.s with inp := rest }) :=
+    readLine_line x.s [13] rest he hc (by rw [hi]; rfl) (by decide) (by simp)
+  unfold headersStep
+  simp only [hline]
+  rfl
+
+/-- serialisation of a header block -/
+def hdrBlock (hs : List (Bytes × Bytes)) : Bytes := hs.flatMap fun nv => nv.1 ++ 58 :: 32 :: (nv.2 ++ [13, 10])
+
+def HeadersOk (hs : List (Bytes × Bytes)) : Prop :=
+  ∀ nv ∈ hs, NameOk nv.1 ∧ ValueOk nv.2 ∧ nv.1.length + nv.2.length + 3 ≤ 16001
+
+theorem iterate_headers (hs : List (Bytes × Bytes)) (rest : Bytes) (hok : HeadersOk hs) :
+    ∀ (fuel : Nat) (s : Sock) (h : Dic) (n v : Bytes), s.err = 0 → s.closed = false →
+      s.inp = hdrBlock hs ++ 13 :: 10 :: rest → hs.length < fuel →
+      iterate headersStep fuel ⟨s, h, n, v⟩ =
+        .ok ({ s with inp := rest }, hs.foldl (fun d nv => setHeader d nv.1 nv.2) h) := by
+  induction hs with
+  | nil =>
+    intro fuel s h n v he hc hi hf
+    obtain ⟨f, rfl⟩ : ∃ f, fuel = f + 1 := ⟨fuel - 1, by omega⟩
+    simp only [iterate]
+    rw [headersStep_end ⟨s, h, n, v⟩ rest he hc (by simpa [hdrBlock] using hi)]
+    rfl
+  | cons nv t ih =>
+    intro fuel s h n v he hc hi hf
+    obtain ⟨f, rfl⟩ : ∃ f, fuel = f + 1 := ⟨fuel - 1, by simp at hf; omega⟩
+    obtain ⟨h1, h2, h3⟩ := hok nv (by simp)
+    simp only [iterate]
+    rw [headersStep_line ⟨s, h, n, v⟩ nv.1 nv.2 (hdrBlock t ++ 13 :: 10 :: rest) he hc
+      (by rw [hi]; simp [hdrBlock]) h1 h2 h3]
+    simp only []
+    have := ih (fun x hx => hok x (by simp [hx])) f
+      { inp := hdrBlock t ++ 13 :: 10 :: rest, err := s.err, closed := s.closed, out := s.out }
+      (setHeader h nv.1 nv.2) nv.1 nv.2 he hc rfl (by simp at hf; omega)
+    rw [this]
+    rfl
+
+/-! ### Content-Length bodies -/
+
+theorem rawRead_exact (s : Sock) (k : Nat) (h0 : 0 < k) (hk : k ≤ s.inp.length) (hc : s.closed = false) :
+    s.rawRead k = (s.inp.take k, { s with inp := s.inp.drop k }) := by
+  unfold Sock.rawRead
+  have : (s.closed || k == 0) = false := by
+    simp only [hc, Bool.false_or, beq_eq_false_iff_ne, ne_eq]; omega
+  simp only [this, Bool.false_eq_true, if_false, List.length_take]
+  have : ¬ (min k s.inp.length < k) := by omega
+  simp only [this, if_false]
+
+theorem blocksStep_exact (s : Sock) (m : Nat) (body : Bytes) (h0 : 0 < m) (hm : m ≤ s.inp.length)
+    (hc : s.closed = false) :
+    blocksStep ⟨s, m, m, body⟩ =
+      if m ≤ 16000 then .ok (.done ⟨{ s with inp := s.inp.drop m }, 0, body ++ s.inp.take m, true⟩)
+      else .ok (.next ⟨{ s with inp := s.inp.drop 16000 }, ((m - 16000 : Nat) : Int), ((m - 16000 : Nat) : Int),
+                        body ++ s.inp.take 16000⟩) := by
+  unfold blocksStep
+  have h1 : ¬ ((m : Int) ≤ 0) := by omega
+  have h3 : ((m : Int) != 0) = true := by simp only [bne_iff_ne, ne_eq]; omega
+  simp only [h1, if_false, h3, if_true]
+  by_cases hlast : m ≤ 16000
+  · have hk : (min (m : Int) 16000).toNat = m := by omega
+    rw [hk, rawRead_exact s m h0 hm hc]
+    have hgl : (s.inp.take m).length = m := by rw [List.length_take]; omega
+    have h2 : ((s.inp.take m).length == 0) = false := by
+      rw [hgl]; simp only [beq_eq_false_iff_ne, ne_eq]; omega
+    have h4 : (m : Int) - (((s.inp.take m).length : Nat) : Int) ≤ 0 := by rw [hgl]; omega
+    have h5 : (m : Int) - (((s.inp.take m).length : Nat) : Int) = 0 := by rw [hgl]; omega
+    simp only [h2, Bool.false_eq_true, if_false, h4, if_true, hlast, pure, Except.pure, h5, Int.le_refl]
+  · have hk : (min (m : Int) 16000).toNat = 16000 := by omega
+    rw [hk, rawRead_exact s 16000 (by omega) (by omega) hc]
+    have hgl : (s.inp.take 16000).length = 16000 := by rw [List.length_take]; omega
+    have h2 : ((s.inp.take 16000).length == 0) = false := by rw [hgl]; rfl
+    have h4 : ¬ ((m : Int) - (((s.inp.take 16000).length : Nat) : Int) ≤ 0) := by rw [hgl]; omega
+    have hcast : (m : Int) - (((s.inp.take 16000).length : Nat) : Int) = ((m - 16000 : Nat) : Int) := by
+      rw [hgl]; omega
+    simp only [h2, Bool.false_eq_true, if_false, h4, hlast, pure, Except.pure, hcast]
+    have h6 : ¬ (((m - 16000 : Nat) : Int) ≤ 0) := by omega
+    simp only [h6, if_false]
+
+/-- the inner loop asked for exactly the `m` announced bytes, all of them pending: it takes them in blocks of at
+    most 16000 and returns from `readBody` with the count at 0 -/
+theorem iterate_blocks_exact :
+    ∀ (fuel : Nat) (s : Sock) (m : Nat) (body : Bytes), 0 < m → m ≤ s.inp.length → s.closed = false → m < fuel + 1 →
+      iterate blocksStep fuel ⟨s, m, m, body⟩ =
+        .ok ⟨{ s with inp := s.inp.drop m }, 0, body ++ s.inp.take m, true⟩ := by
+  intro fuel
+  induction fuel with
+  | zero => intro s m body h0 _ _ hf; omega
+  | succ fuel ih =>
+    intro s m body h0 hm hc hf
+    simp only [iterate]
+    rw [blocksStep_exact s m body h0 hm hc]
+    by_cases hlast : m ≤ 16000
+    · simp only [hlast, if_true]; rfl
+    · simp only [hlast, if_false]
+      have := ih { s with inp := s.inp.drop 16000 } (m - 16000) (body ++ s.inp.take 16000) (by omega)
+        (by simp only [List.length_drop]; omega) hc (by omega)
+      rw [this]
+      have e : 16000 + (m - 16000) = m := by omega
+      have hd : (s.inp.drop 16000).drop (m - 16000) = s.inp.drop m := by
+        rw [List.drop_drop, e]
+      have ht : s.inp.take 16000 ++ (s.inp.drop 16000).take (m - 16000) = s.inp.take m := by
+        conv => rhs; rw [← e, List.take_add]
+      simp only [hd, List.append_assoc, ht]
+
+theorem myatoi_zero : myatoi 32 [48] = 0 := by decide
+
+/-- a body framed by `Content-Length: n` with all `n` bytes pending is read exactly; what follows stays unread -/
+theorem readBody_content_length (s : Sock) (h : Dic) (body rest : Bytes) (he : s.err = 0) (hc : s.closed = false)
+    (hi : s.inp = body ++ rest) (hpos : 0 < body.length)
+    (hcl : hasHeader h sContentLength = true)
+    (hval : myatoi 32 (cstr (header h sContentLength)) = (body.length : Int))
+    (hte : (cstr (header h sTransferEncoding) == sChunked) = false) :
+    readBody s h = .ok ({ s with inp := rest }, body) := by
+  unfold readBody
+  have hnot0 : (cstr (header h sContentLength) == [48]) = false := by
+    cases hb : (cstr (header h sContentLength) == [48]) with
+    | false => rfl
+    | true =>
+      have : cstr (header h sContentLength) = [48] := by simpa using hb
+      rw [this, myatoi_zero] at hval
+      omega
+  simp only [hcl, hnot0, Bool.and_false, Bool.false_eq_true, if_false, Bool.not_true, Bool.false_and, hte, hval]
+  have hfuel : s.inp.length + 2 = (s.inp.length + 1) + 1 := rfl
+  rw [hfuel]
+  simp only [iterate]
+  unfold bodyStep
+  have hav : s.available = (s.inp.length : Int) := by
+    unfold Sock.available; simp [he, hc]
+  have hlen : s.inp.length = body.length + rest.length := by rw [hi]; simp
+  have h1 : ¬ ((s.inp.length : Int) < 0) := by omega
+  simp only [hav, h1, if_false, Bool.false_eq_true]
+  have h2 : ¬ ((s.inp.length : Int) ≤ 0) := by omega
+  simp only [h2, if_false]
+  have hmx : (if (decide ((body.length : Int) > 0) && decide ((s.inp.length : Int) > (body.length : Int))) = true
+      then (body.length : Int) else (s.inp.length : Int)) = (body.length : Int) := by
+    split
+    · rfl
+    · rename_i hh
+      simp only [Bool.and_eq_true, decide_eq_true_eq, not_and] at hh
+      have := hh (by omega)
+      omega
+  rw [hmx]
+  unfold readBlocks
+  rw [iterate_blocks_exact (s.inp.length + 1) s body.length [] hpos (by omega) hc (by omega)]
+  simp only [bind, Except.bind, if_true, pure, Except.pure]
+  rw [hi]
+  simp
+
+theorem readBody_none (s : Sock) (h : Dic) (hcl : hasHeader h sContentLength = false)
+    (hte : (cstr (header h sTransferEncoding) == sChunked) = false) : readBody s h = .ok (s, []) := by
+  unfold readBody
+  simp only [hcl, hte, Bool.false_and, Bool.false_eq_true, if_false, Bool.not_false, Bool.and_self, if_true]
+  rfl
+
+theorem hdrBlock_length (hs : List (Bytes × Bytes)) : hs.length ≤ (hdrBlock hs).length := by
+  induction hs with
+  | nil => simp [hdrBlock]
+  | cons nv t ih =>
+    simp only [hdrBlock, List.flatMap_cons, List.length_append, List.length_cons, List.length_nil] at ih ⊢
+    omega
+
+/-! ### whole requests -/
+
+structure WfReq where
+  method : Bytes
+  target : Bytes
+  proto : Bytes
+  headers : List (Bytes × Bytes)
+  body : Bytes
+
+/-- the bytes of a request on the wire (RFC 7230 §3: request-line, header fields, empty line, body) -/
+def serialize (q : WfReq) : Bytes :=
+  q.method ++ 32 :: (q.target ++ 32 :: (q.proto ++ 13 :: 10 :: (hdrBlock q.headers ++ 13 :: 10 :: q.body)))
+
+/-- the header dictionary that results from storing the fields in order under their canonical names -/
+def hdrDic (hs : List (Bytes × Bytes)) : Dic := hs.foldl (fun d nv => setHeader d nv.1 nv.2) []
+
+structure WellFormed (q : WfReq) : Prop where
+  method_ne : q.method ≠ []
+  method_ok : ∀ c ∈ q.method, c ≠ 32 ∧ c ≠ 0 ∧ c ≠ 10
+  target_ok : ∀ c ∈ q.target, c ≠ 32 ∧ c ≠ 0 ∧ c ≠ 10
+  proto_ok : ValueOk q.proto
+  line_len : q.method.length + q.target.length + q.proto.length + 3 ≤ 16001
+  headers_ok : HeadersOk q.headers
+  no_expect : (cstr (header (hdrDic q.headers) sExpect) == s100continue) = false
+  not_chunked : (cstr (header (hdrDic q.headers) sTransferEncoding) == sChunked) = false
+  framing : (q.body = [] ∧ hasHeader (hdrDic q.headers) sContentLength = false) ∨
+            (0 < q.body.length ∧ hasHeader (hdrDic q.headers) sContentLength = true ∧
+              myatoi 32 (cstr (header (hdrDic q.headers) sContentLength)) = (q.body.length : Int))
+
+theorem read_faithful_aux (q : WfReq) (rest : Bytes) (hw : WellFormed q) :
+    ∃ t, parseTarget q.target = .ok t ∧
+      AslModel.HttpParse.read { inp := serialize q ++ rest } =
+        .ok ({ method := q.method, res := q.target, proto := q.proto, path := t.path, query := t.query,
+               fragment := t.fragment, parts := t.parts, headers := hdrDic q.headers, body := q.body },
+             { inp := rest }) := by
+  obtain ⟨t, ht, _, _⟩ := parseTarget_ok q.target
+  refine ⟨t, ht, ?_⟩
+  obtain ⟨hp0, hp1, hp2, hp3⟩ := hw.proto_ok
+  -- the request line
+  have hline : (⟨serialize q ++ rest, 0, false, []⟩ : Sock).readLine =
+      (q.method ++ 32 :: (q.target ++ 32 :: (q.proto ++ [13])),
+       ⟨hdrBlock q.headers ++ 13 :: 10 :: (q.body ++ rest), 0, false, []⟩) := by
+    apply readLine_line _ _ _ rfl rfl
+    · simp [serialize]
+    · intro c hcm
+      simp only [List.mem_append, List.mem_cons, List.not_mem_nil, or_false] at hcm
+      rcases hcm with h | rfl | h | rfl | h | rfl
+      · exact (hw.method_ok c h).2.2
+      · decide
+      · exact (hw.target_ok c h).2.2
+      · decide
+      · exact hp1 c h
+      · decide
+    · have := hw.line_len
+      simp only [List.length_append, List.length_cons, List.length_nil]; omega
+  unfold AslModel.HttpParse.read
+  simp only [hline]
+  have hne : ((q.method ++ 32 :: (q.target ++ 32 :: (q.proto ++ [13]))).length == 0) = false := by simp
+  simp only [bne_self_eq_false, hne, Bool.or_self, Bool.false_eq_true, if_false]
+  rw [parseRequestLine_faithful q.method q.target (q.proto ++ [13])
+    (fun c hc => ⟨(hw.method_ok c hc).1, (hw.method_ok c hc).2.1⟩)
+    (fun c hc => ⟨(hw.target_ok c hc).1, (hw.target_ok c hc).2.1⟩)]
+  simp only [bind, Except.bind]
+  have hproto : trimmed (q.proto ++ [13]) = q.proto := by
+    have := trimmed_core [] q.proto [13] (by simp) (by decide) hp0 hp2 hp3
+    simpa using this
+  rw [hproto]
+  -- the header block
+  unfold readHeaders
+  rw [iterate_headers q.headers (q.body ++ rest) hw.headers_ok _ _ [] [] [] rfl rfl rfl
+    (by have := hdrBlock_length q.headers; simp only [List.length_append, List.length_cons]; omega)]
+  simp only []
+  have hexp : expectContinue ⟨q.body ++ rest, 0, false, []⟩ (hdrDic q.headers) = ⟨q.body ++ rest, 0, false, []⟩ := by
+    unfold expectContinue
+    simp only [hw.no_expect, Bool.false_eq_true, if_false]
+  have hfold : List.foldl (fun d nv => setHeader d nv.fst nv.snd) [] q.headers = hdrDic q.headers := rfl
+  simp only [hfold]
+  rw [hexp]
+  rcases hw.framing with ⟨hb, hcl⟩ | ⟨hb, hcl, hval⟩
+  · rw [readBody_none _ _ hcl hw.not_chunked]
+    simp only [ht, hb, List.nil_append]
+    rfl
+  · rw [readBody_content_length _ _ q.body rest rfl rfl rfl hb hcl hval hw.not_chunked]
+    simp only [ht]
+    rfl
 
 end AslProofs.HttpParse
